@@ -224,13 +224,17 @@ TC_KINDS = {"ok": ("exit 0", "e0"), "e1": ("exit 1", "e1"), "e2": ("exit 2", "e2
             "k15": ("kill -TERM $$", "s15"), "slow0": ("sleep 0.02\nexit 0", "e0"), "slow3": ("sleep 0.02\nexit 3", "e3")}
 
 
-def build_tfel_check(ck, built):
-    """tfel-check.cxx and TestLauncher.cxx of the current tree, linked with the process/signal managers compiled from
-    the tree for the first harness (objects given first: they take precedence over the prebuilt shared libraries)"""
+def compile_tfel_check(ck):
+    """objects of tfel-check.cxx and TestLauncher.cxx of the current tree (started first, in the background)"""
     R = vlib.REPO
     inc = [R + "/mfront/include", vlib.BUILD + "/mfront/include", R + "/tfel-check/include"]
-    objs = ck.cxx_many([("tc_main.o", [R + "/tfel-check/src/tfel-check.cxx"]), ("tc_launcher.o", [R + "/tfel-check/src/TestLauncher.cxx"])],
-                       flags=["-c"], includes=inc, std="gnu++20", defines=TC_DEFINES)
+    return ck.cxx_many([("tc_main.o", [R + "/tfel-check/src/tfel-check.cxx"]), ("tc_launcher.o", [R + "/tfel-check/src/TestLauncher.cxx"])],
+                       flags=["-c"], includes=inc, std="gnu++20", defines=TC_DEFINES, opt="-O0")
+
+
+def build_tfel_check(ck, built, objs):
+    """tfel-check.cxx and TestLauncher.cxx of the current tree, linked with the process/signal managers compiled from
+    the tree for the first harness (objects given first: they take precedence over the prebuilt shared libraries)"""
     libs = ck.libflags("TFELCheck", "TFELMFront", "MFrontLogStream", "TFELMaterial", "TFELMathParser", "TFELMathCubicSpline",
                        "TFELGlossary", "TFELSystem", "TFELUtilities", "TFELException", "TFELConfig", "TFELUnicodeSupport",
                        "TFELNUMODIS", "TFELMath")
@@ -238,12 +242,12 @@ def build_tfel_check(ck, built):
                   flags=["-rdynamic"], libs=libs + ["-lpthread"], std="gnu++20")
 
 
-def tfel_check_layer(ck, rng, built):
+def tfel_check_layer(ck, rng, built, objs):
     """runs the tfel-check of the tree on seeded suites of .check files whose commands have a known termination:
     a command is reported as a success iff it exited with 0 (the message names the exit value / the signal),
     a test succeeds iff all its commands do, tfel-check exits with 0 iff all tests succeed"""
     import re
-    binary = build_tfel_check(ck, built)
+    binary = build_tfel_check(ck, built, objs)
     suites = [(1, 6), (4, 14), (8, 20)] if ck.quick else [(1, 30), (2, 40), (4, 60), (8, 80), (16, 80)]
     stats = {"commands": 0, "tests": 0, "suites": 0, "kinds": {}}
     reported = set()
@@ -336,6 +340,8 @@ def run(ck):
     src, hook_note = hooked_source(ck)
     ck.log(hook_note)
     R = vlib.REPO
+    tc_pool = ThreadPoolExecutor(max_workers=1)
+    tc_future = tc_pool.submit(compile_tfel_check, ck)
     objs = [("h.o", ["C30/harness.cxx"]), ("pm.o", [src]), ("sm.o", [R + "/src/System/SignalManager.cxx"]),
             ("sh.o", [R + "/src/System/SignalHandler.cxx"]), ("se.o", [R + "/src/System/SystemError.cxx"]),
             ("sy.o", [R + "/src/System/System.cxx"]), ("pc.o", [R + "/src/System/ProcessManager-c.c"]),
@@ -438,7 +444,9 @@ def run(ck):
     ck.violations = [v for v in ck.violations
                      if not (v[0].startswith("corr:") and v[0][5:] in reported)]
 
-    tc = tfel_check_layer(ck, random.Random(ck.seed + 7919), built)
+    tc_objs = tc_future.result()
+    tc_pool.shutdown()
+    tc = tfel_check_layer(ck, random.Random(ck.seed + 7919), built, tc_objs)
     ck.assumptions += [
         "the tfel-check layer (TestLauncher::execute, TFELCheck::execute) is not modelled: tfel-check.cxx and TestLauncher.cxx of the current tree are compiled, linked with the process and signal managers of the tree (in front of the prebuilt libTFELCheck / libTFELSystem) and run with --jobs 1..8 on seeded .check files whose commands exit with 0 / n / die by a signal; command verdicts and messages, test verdicts and the exit status of tfel-check are compared with what the terminations require (commands are `sh <file>.sh`: tfel-check splits commands on blanks without honouring quotes)",
         "M: the transition system of Model.lean is tied to ProcessManager.cxx by trace validation: the kernel's answers to every waitpid are logged by an interposed waitpid in the harness, setProcessExitStatus and the handler's critical section by hooks (guard TFEL_VERIF_HOOKS); every job's history must be accepted by the model and execute()'s outcome must be the model's (differential testing over the schedules run, not proof)",
